@@ -9,6 +9,7 @@ import Lean.Data.Json
 import MhlModel
 
 open Lean MhlModel MhlModel.Codec
+open MhlModel (Time.Zone)
 
 structure DState where
   tree : Node := .dir "root" [] none
@@ -276,6 +277,22 @@ def step (st : DState) (j : Json) : DState × Json :=
     (st, Json.mkObj [("hit", fragmentMatcher (jstrs j "patterns") (jpath j "path"))])
   | "genname" =>
     (st, Json.mkObj [("n", match parseGenName (jstr j "name") with | some n => Json.num n | none => Json.null)])
+  | "iso" =>
+    -- zone: base offset and a list of [instant, offset] transitions (ascending)
+    let base := (j.getObjValAs? Int "base").toOption.getD 0
+    let trs : List (Int × Int) := (jarr j "transitions").toList.filterMap fun x =>
+      match x.getArr?.toOption with
+      | some #[a, b] => match a.getInt?.toOption, b.getInt?.toOption with
+        | some a, some b => some (a, b)
+        | _, _ => none
+      | _ => none
+    let z : Time.Zone := fun u => trs.foldl (fun acc (T, off) => if T ≤ u then off else acc) base
+    let t := (j.getObjValAs? Int "t").toOption.getD 0
+    let d := Time.fromTimestamp z t
+    let parts := Time.isoParts z d
+    (st, Json.mkObj [("local", Json.num d.secs), ("fold", d.fold), ("mktime", Json.num (Time.mktime z d)),
+      ("iso_local", Json.num parts.1), ("iso_off", Json.num parts.2), ("offtext", Time.offsetText parts.2),
+      ("denote", Json.num (Time.denote parts))])
   | _ => (st, Json.mkObj [("error", "bad-op")])
 
 partial def loop (h : IO.FS.Stream) (out : IO.FS.Stream) (st : DState) : IO Unit := do
